@@ -54,8 +54,16 @@ def render_stmt(sk, ind, ctr, is_main):
     if k == "loop":
         ctr[0] += 1
         v = "i%d" % ctr[0]
-        return (p + "for (int %s = 0; %s < %d; %s++) {\n" % (v, v, sk[1], v) +
-                "".join(render_stmt(x, ind + 1, ctr, is_main) for x in sk[2]) + p + "}\n")
+        body = "".join(render_stmt(x, ind + 1, ctr, is_main) for x in sk[2])
+        form = (ctr[0] * 5 + sk[1]) % 3
+        if form == 0:
+            return p + "for (int %s = 0; %s < %d; %s++) {\n" % (v, v, sk[1], v) + body + p + "}\n"
+        if form == 1:
+            # the counter is declared before the loop: the init clause declares nothing
+            return p + "int %s = 0;\n" % v + p + "for (%s = 0; %s < %d; %s++) {\n" % (v, v, sk[1], v) + body + p + "}\n"
+        # while loop; the counter is advanced at the top of the body so that `continue` still makes progress
+        return (p + "int %s = 0;\n" % v + p + "while (%s < %d) {\n" % (v, sk[1]) + p + "    %s = %s + 1;\n" % (v, v) +
+                body + p + "}\n")
     if k == "ret":
         return p + ("return 0;\n" if is_main else "return;\n")
     if k == "brk":
